@@ -22,8 +22,8 @@ META = dict(
     min_events={'quick': {'substitutions_checked': 40000, 'substitutions_changing': 10000, 'attribute_sets_checked': 8000,
                           'unquantify_checked': 2000, 'negative_checked': 5000},
                 'thorough': {'substitutions_checked': 1500000, 'substitutions_changing': 300000, 'attribute_sets_checked': 120000}},
-    budget=dict(quick=300, thorough=2400),
-    unit_timeout=dict(quick=240, thorough=2000),
+    budget=dict(quick=1500, thorough=2400),
+    unit_timeout=dict(quick=900, thorough=3000),
 )
 
 a, b = syn.const(0), syn.const(1)
